@@ -612,7 +612,9 @@ func runC06(t *testing.T, c *choice.Stream, r *Result, opt RunOpt) {
 		}
 	}()
 	runtime.ReadMemStats(&ms1)
-	if grew := ms1.TotalAlloc - ms0.TotalAlloc; grew > 512<<20 && r.Outcome != "violation" {
+	// cumulative allocation, so a large input is allowed its share: growing
+	// buffers re-allocate what they hold several times over
+	if grew := ms1.TotalAlloc - ms0.TotalAlloc; grew > 512<<20+8*uint64(len(data)) && r.Outcome != "violation" {
 		r.Violate("allocation", "alloc:"+cs.key, "decoding %d damaged bytes (%v) allocated %d MiB", len(data), what, grew>>20)
 	}
 	if derr == nil {
